@@ -51,7 +51,7 @@ Print Assumptions C08_control_kept.
 Definition K_d15 (rf : bool) : cfg :=
   {| c_cap := 256; c_batch := 12; c_pub := {| on_batch := true; on_drain := true |}; c_dropping := true;
      c_tinit := 4; c_soft := 4; c_hard := 8; c_grace := 0; c_bits := 32; c_refresh2 := true; c_catch_all := true;
-     c_report_first := rf; c_bt := {| BT.BTModel.reset_index_in_process := true; BT.BTModel.cap0_guard := true |}; c_bt_catch := true; c_flush_iv := 0 |}.
+     c_report_first := rf; c_bt := {| BT.BTModel.reset_index_in_process := true; BT.BTModel.cap0_guard := true |}; c_bt_catch := true; c_flush_iv := 0; c_follow := true |}.
 Definition d15_cmds : list cmd :=
   map (fun i => CLog 0 (mk_ev i 0 4 51 0) false) [1; 2; 3; 4; 5; 6; 7] ++
   [CTick 1; CFlush 1 (mk_flush 8 0 40); CExit 0] ++ repeat (CPoll []) 8.
